@@ -238,6 +238,12 @@ func push0(a *Asm, n int) {
 // frame works on when statically known (nil below a CREATE-like frame).
 func (c *compiled) body(n *Node, ctx *common.Address, level int, chainID *big.Int) []byte {
 	a := &Asm{}
+	lEnd := -1
+	if isDead(n) { // variant selector: skip the body when bit ID of DIFFICULTY is set
+		lEnd = a.NewLabel()
+		envBit(a, opDIFFICULTY, n.ID)
+		a.PushLabel(lEnd).Op(opJUMPI)
+	}
 	for _, it := range n.Items {
 		switch it.Op {
 		case "sstore":
@@ -286,6 +292,12 @@ func (c *compiled) body(n *Node, ctx *common.Address, level int, chainID *big.In
 					c.ctxs[addr] = true
 				}
 				c.deploy[addr] = c.body(ch, cctx, level+1, chainID)
+				lCall, lAfter := -1, -1
+				if ch.Kind == kSTATIC { // control variant: bit ID of GASPRICE set => plain CALL
+					lCall, lAfter = a.NewLabel(), a.NewLabel()
+					envBit(a, opGASPRICE, ch.ID)
+					a.PushLabel(lCall).Op(opJUMPI)
+				}
 				push0(a, 4)
 				if ch.Kind == kCALL || ch.Kind == kCALLCODE {
 					a.Push(ch.Val)
@@ -302,6 +314,13 @@ func (c *compiled) body(n *Node, ctx *common.Address, level int, chainID *big.In
 					a.Op(opSTATICCALL)
 				}
 				a.Op(opPOP)
+				if ch.Kind == kSTATIC {
+					a.PushLabel(lAfter).Op(opJUMP)
+					a.Mark(lCall)
+					push0(a, 5)
+					a.PushBytes(addr.Bytes()).Push(levelGas(level+1)).Op(opCALL, opPOP)
+					a.Mark(lAfter)
+				}
 			case kCREATE, kCREATE2:
 				init := c.body(ch, nil, level+1, chainID)
 				d := a.Data(init)
@@ -335,15 +354,30 @@ func (c *compiled) body(n *Node, ctx *common.Address, level int, chainID *big.In
 			panic("unknown op " + it.Op)
 		}
 	}
-	switch n.End {
-	case "stop":
-		a.Op(opSTOP)
-	case "return":
-		if isCreateKind(n.Kind) {
-			a.PushBytes([]byte{opPUSH1, byte(n.ID), opSTOP}).Op(opPUSH1, 0, opMSTORE, opPUSH1, 3, opPUSH1, 29, opRETURN)
-		} else {
-			a.Push(uint64(n.ID)+0x7700).Op(opPUSH1, 0, opMSTORE, opPUSH1, 32, opPUSH1, 0, opRETURN)
+	if lEnd >= 0 {
+		a.Mark(lEnd)
+	}
+	okEnd := func(end string) {
+		switch end {
+		case "stop":
+			a.Op(opSTOP)
+		case "return":
+			if isCreateKind(n.Kind) {
+				a.PushBytes([]byte{opPUSH1, byte(n.ID), opSTOP}).Op(opPUSH1, 0, opMSTORE, opPUSH1, 3, opPUSH1, 29, opRETURN)
+			} else {
+				a.Push(uint64(n.ID)+0x7700).Op(opPUSH1, 0, opMSTORE, opPUSH1, 32, opPUSH1, 0, opRETURN)
+			}
 		}
+	}
+	lOk := -1
+	if isFailEnd(n.End) { // control variant: bit ID of GASPRICE set => the frame succeeds
+		lOk = a.NewLabel()
+		envBit(a, opGASPRICE, n.ID)
+		a.PushLabel(lOk).Op(opJUMPI)
+	}
+	switch n.End {
+	case "stop", "return":
+		okEnd(n.End)
 	case "selfdestruct":
 		a.PushBytes(eoaAddr(n.Ben % nEOA).Bytes()).Op(opSELFDESTRUCT)
 	case "revert":
@@ -362,7 +396,20 @@ func (c *compiled) body(n *Node, ctx *common.Address, level int, chainID *big.In
 	default:
 		panic("unknown end " + n.End)
 	}
+	if lOk >= 0 {
+		a.Mark(lOk)
+		if isCreateKind(n.Kind) {
+			okEnd("return")
+		} else {
+			okEnd("stop")
+		}
+	}
 	return a.Bytes()
+}
+
+// envBit leaves bit `id` of the given block-context word (DIFFICULTY / GASPRICE) on the stack.
+func envBit(a *Asm, envOp byte, id int) {
+	a.Op(envOp).Push(uint64(id)).Op(opSHR, opPUSH1, 1, opAND)
 }
 
 // ---------------------------------------------------------------------------
@@ -405,38 +452,31 @@ func pruneTree(root *Node) (*Node, []deadInfo) {
 	return b, dead
 }
 
-// revive makes a subtree fully effective: failing ends succeed, static calls become calls.
-func revive(n *Node) *Node {
-	c := n.clone()
-	c.walk(func(x, _ *Node, _ int, _ bool) {
-		if isFailEnd(x.End) {
-			if isCreateKind(x.Kind) {
-				x.End = "return"
-			} else {
-				x.End = "stop"
-			}
-		}
-		if x.Kind == kSTATIC {
-			x.Kind = kCALL
-		}
-	}, nil, 0, false)
-	return c
+// masks: the variant selectors. skip: frames that fail / return immediately
+// (twin B: every outermost dead frame); rev: frames that are revived (control:
+// the whole subtree of one outermost dead frame succeeds, static becomes CALL).
+func idMask(ids ...int) *big.Int {
+	m := new(big.Int)
+	for _, id := range ids {
+		m.SetBit(m, id, 1)
+	}
+	return m
 }
 
-// controlTree: twin B with the dead frame id replaced by its revived original.
-func controlTree(orig, b *Node, id int) *Node {
-	c := b.clone()
-	if c.ID == id {
-		return revive(orig)
-	}
-	c.walk(func(x, _ *Node, _ int, _ bool) {
-		for i := range x.Items {
-			if x.Items[i].Child != nil && x.Items[i].Child.ID == id {
-				x.Items[i].Child = revive(orig.find(id))
-			}
+func subtreeIDs(n *Node) []int {
+	var ids []int
+	n.walk(func(x, _ *Node, _ int, _ bool) { ids = append(ids, x.ID) }, nil, 0, false)
+	return ids
+}
+
+func maxID(n *Node) int {
+	m := 0
+	for _, id := range subtreeIDs(n) {
+		if id > m {
+			m = id
 		}
-	}, nil, 0, false)
-	return c
+	}
+	return m
 }
 
 // ---------------------------------------------------------------------------
